@@ -305,7 +305,7 @@ static bool prepare_subject(Subject &s, void *value) {
         EncResult e = encode_to_vec(s.td, value, sy);
         if(e.aborted || e.encoded < 0) continue;
         if(sy == SY_XER || sy == SY_CXER) xer_strip_trailing_ws(e.out);
-        if(e.out.size() > 16384) continue;
+        if(e.out.size() > (s.value_spec.rfind("bulk:", 0) == 0 ? 100000u : 16384u)) continue;   // big encodings only for the one-payload values (few allocations)
         s.enc[sy] = e.out;
     }
     // reference: fresh decode of each valid encoding
@@ -397,7 +397,8 @@ static void c14_run(uint64_t seed, uint64_t index, bool thorough) {
     sim_alloc_always_move(s.head.get("realloc") == "move");
     status_head(s.head.head_str());
     long moves_before = sim_alloc_total_moves();
-    unsigned nh = thorough ? 6 : 3;
+    bool bulk = s.value_spec.rfind("bulk:", 0) == 0;     // one big payload: every op is expensive, so fewer histories and fault points
+    unsigned nh = bulk ? 1 : thorough ? 6 : 3;
     for(unsigned h = 0; h < nh; h++) {
         std::vector<Op> ops = gen_history(s, r, &other);
         status_ops(ops_str(ops));
@@ -409,7 +410,7 @@ static void c14_run(uint64_t seed, uint64_t index, bool thorough) {
         // second fault-free pass: the simulator itself must be deterministic here
         // (cheap insurance; counted in executions)
         // enumerate single allocation failures: every op, every k reached
-        long cap = thorough ? 512 : 48;
+        long cap = bulk ? 10 : thorough ? 512 : 48;
         bool any_fired = false;
         bool stop = false;
         for(int j = 0; j < (int)ops.size() && !stop; j++) {
